@@ -7,6 +7,7 @@ _UNIT_MODULES = [
     "units.u_resolver.unit",
     "units.u_bitvec.unit",
     "units.u_output.unit",
+    "units.u_output.cursor",
     "units.u_charcount.unit",
     "units.u_symbols.unit",
     "units.u_rulemap.unit",
@@ -29,12 +30,12 @@ REPORT_TB = ["diagn::Report contracts (units/contracts_report.py: error*/warning
 RESOLVER_TB = ["ASSUMED contracts of unverified customasm code used by U-resolver/U-iterate: asm::resolver::eval / eval_certain ('Err is loud, Ok is clean'), resolve_constant / resolve_instruction (the per-item pass contract), ResolveIterator::new/next (flags copied; the yielded node refers to defined items), Value::expect_error_or_bigint / expect_bool, DefList::get_mut (frame), derived PartialEq of expr::Value",
                "ghost event `ItemDefs::confirmed()` is produced only by resolve_once's stub clause [confirms] (a name for 'a no-guess pass answered Resolved'); termination of resolve_once's loop is not proved"]
 
-ALL_UNITS = ["U-overlap", "U-bigint", "U-constrain", "U-resolver", "U-iterate", "U-bitvec", "U-output", "U-charcount", "U-symbols", "U-rulemap", "U-literal", "U-format", "U-inspect", "U-report", "U-limits"]
+ALL_UNITS = ["U-overlap", "U-bigint", "U-constrain", "U-resolver", "U-iterate", "U-bitvec", "U-output", "U-charcount", "U-symbols", "U-rulemap", "U-literal", "U-format", "U-inspect", "U-report", "U-limits", "U-cursor"]
 
 PROPERTIES = {
     "C01": {
-        "units": ["U-resolver", "U-bitvec", "U-constrain"],
-        "claim": "Address bookkeeping, for all inputs: eval_address/get_address return addr_start + position / addr_unit, and a position that is not a whole number of addresses is rejected when guessing is forbidden; advance_address moves only the current bank, by exactly the size of the item before (instruction / data element / #res), to the next multiple for #align, and to (address - addr_start) * addr_unit for #addr; bits_until_alignment returns the least non-negative distance; resolve_label stores exactly the address of what follows; every defined bank has a positive address unit (proved at bankdef::define). BitVec::write_bigint writes a sized value MSB-first at [index, index+size) and changes no other bit. Typed arguments are accepted exactly on their range (check_and_constrain_argument, see C04).",
+        "units": ["U-resolver", "U-bitvec", "U-constrain", "U-cursor"],
+        "claim": "Address bookkeeping, for all inputs: eval_address/get_address return addr_start + position / addr_unit, and a position that is not a whole number of addresses is rejected when guessing is forbidden; advance_address moves only the current bank, by exactly the size of the item before (instruction / data element / #res), to the next multiple for #align, and to (address - addr_start) * addr_unit for #addr; bits_until_alignment returns the least non-negative distance; resolve_label stores exactly the address of what follows; every defined bank has a positive address unit (proved at bankdef::define); ResolveIterator::next (the AST walk shared by the resolve passes and build_output) keeps its cursor well formed and yields only nodes whose items are defined and whose bank exists, given an AST that refers to defined items. BitVec::write_bigint writes a sized value MSB-first at [index, index+size) and changes no other bit. Typed arguments are accepted exactly on their range (check_and_constrain_argument, see C04).",
         "not_reached": "rule matching, argument evaluation, choice of the smallest encoding (resolve_encoding), parsing, data-directive evaluation, the loop of build_output that ties the checked pieces together",
         "trusted_base": NUMBIGINT_TB + REPORT_TB + RESOLVER_TB,
     },
@@ -105,7 +106,7 @@ PROPERTIES = {
         "trusted_base": NUMBIGINT_TB + REPORT_TB,
     },
     "C06": {
-        "units": ["U-overlap", "U-output", "U-bitvec", "U-resolver"],
+        "units": ["U-overlap", "U-output", "U-bitvec", "U-resolver", "U-cursor"],
         "claim": "check_bank_overlap: Ok implies no two bank output windows share a bit (an unsized bank extends to infinity); check_bank_output: Ok implies position + size lies inside a sized bank and a written item's bank has an output offset, and it rejects only such violations; check_bank_usage: the default bank is usable only while it is the only bank; get_output_position = outp + position; fill_banks sets no bit and extends the output to the end of every filled bank; BitVec writes change exactly the addressed bits, so every bit not written is zero and len is the maximum end of writes; misaligned labels are rejected (eval_address). build_output itself is verified: every item goes through usage check, window check, overlap check and then the write, every `unwrap()` in it is justified by the preceding check's postcondition, and the output it returns satisfies the bit-store invariant. OverlapChecker::check_and_insert: Ok implies the new (position,size) shares no output bit with any stored entry, the entry list stays ordered/disjoint and is changed by exactly one insertion; Err leaves it unchanged and pushes a message; an entry is rejected only if it touches a stored one.",
         "not_reached": "that the items build_output walks are in the state the resolve passes left them (labels are integers, encodings sized, position + size already computed): assumed in ResolveIterator::next's contract; bank definition parsing",
         "trusted_base": REPORT_TB + NUMBIGINT_TB + RESOLVER_TB + ["ASSUMED spec of <[T]>::binary_search_by (phrased through the closure's contract)", "check_bank_output's precondition position + size <= usize::MAX is not checked at its (unverified) call sites"],
